@@ -110,7 +110,8 @@ JudgeStep(role, stored, act, acc, ob) ==
     IN  [acc |-> a1, bad |-> b7]
 
 (*************************** C03: two endpoints, judged at quiescence *******************)
-(* c, s: [st, wsOpen, nSetup, idOk]; trustGiven, timely, faultFree as recorded by the harness *)
+(* c, s: [st, wsOpen, nSetup, idOk]; q.trustGiven: the server side trusted the client beforehand, through auto-accept,   *)
+(* or by an approval given before or while the request was pending, and did not cancel; q.trustAny: trusted at any time *)
 BothCompleteOpen(c, s) == c.st = "Complete" /\ s.st = "Complete" /\ c.wsOpen /\ s.wsOpen /\ c.nSetup = 1 /\ s.nSetup = 1
 NeitherComplete(c, s)  == c.nSetup = 0 /\ s.nSetup = 0
 BothEnded(c, s)        == ~c.wsOpen /\ ~s.wsOpen
@@ -119,7 +120,7 @@ JudgePair(c, s, q) ==
               THEN {<<"C03", "disagree-at-quiescence", c.st, s.st>>} ELSE {}
         b2 == IF q.timely /\ q.trustGiven /\ q.idsCompatible /\ q.faultFree /\ ~q.userClosed /\ ~BothCompleteOpen(c, s)
               THEN b1 \cup {<<"C03", "trusted-but-not-both-complete", c.st, s.st>>} ELSE b1
-        b3 == IF ~q.trustGiven /\ ~NeitherComplete(c, s)
+        b3 == IF ~q.trustAny /\ ~NeitherComplete(c, s)
               THEN b2 \cup {<<"C03", "untrusted-but-complete", c.st, s.st>>} ELSE b2
         b4 == IF BothCompleteOpen(c, s) /\ ~(c.idOk /\ s.idOk)
               THEN b3 \cup {<<"C03", "complete-without-learning-ship-id", c.st, s.st>>} ELSE b3
